@@ -57,7 +57,7 @@ Definition data_message_with (o : dopts) (b : N) (compressed : bool) (dm : defms
           let off := N.land b c_compressedTimeMask in
           let delta := (off + 32 - ds_lastoff s) mod 32 in
           let ts := (ds_ts s + delta) mod 2 ^ 32 in
-          bind (put_st (with_time s ts off)) (fun _ =>
+          bind (put_st (if ts =? 0 then with_quirk (with_time s ts off) Q_TS_ZERO else with_time s ts off)) (fun _ =>
           match get_field gmn c_fieldNumTimeStamp with
           | Some p =>
               match msgv with
